@@ -12,12 +12,20 @@ open Genql.Async Genql.Generated
 theorem async_shape : AsyncShape asyncEvents = true := by decide
 theorem spinasync_shape : AsyncShape spinasyncEvents = true := by decide
 
+/-- when the called function panics, the goroutine first recovers (ASYNC: stores the error its post
+    processor will return; SPINASYNC: reports it) and only then signals the wait group — so the waiter,
+    and every post processor after it, observes the stored outcome (`wg.Done` happens-before `Wait`
+    returns; nothing the goroutine does after `Done` is ordered before the reader) -/
+theorem unwind_done_last :
+    asyncUnwind = ["recover", "wgDone"] ∧ spinasyncUnwind = ["recover", "wgDone"] ∧ spinUnwind = ["recover"] := by decide
+
 /-- SPIN starts a goroutine without touching the wait group -/
 theorem spin_not_waited : spinEvents.contains .wgAdd = false ∧ spinEvents.contains .wgDone = false := by decide
 
-/-- sub-queries, derived tables and EXISTS forward their wait to the enclosing query -/
+/-- sub-queries, derived tables, EXISTS, and the copies made for join sides / inner arrays
+    (`Query.adopt`, repair D47) forward their wait to the enclosing query -/
 theorem nested_wait_forwarded_sites :
-    nestedForwarders = ["BuildFromAliasedTable", "ExistExpr", "SubqueryExpr"] := by decide
+    nestedForwarders = ["BuildFromAliasedTable", "ExistExpr", "Query.adopt", "SubqueryExpr"] := by decide
 
 /-- the `immediate` flags of the registry: exactly these functions reject ASYNC / SPIN / SPINASYNC -/
 theorem immediate_table :
